@@ -2,5 +2,5 @@ From Coq Require Import Reals List Extraction ExtrOcamlBasic.
 From OSU.Extract Require Import RFloat.
 From OSU.Model Require Import WindInversion.
 Extraction "../build/ex/C11/model.ml" run_test value_of diss_direction diss_bulk diss_kx diss_ky
-  integrate2 active_dedt balance_fn u10_from_bulk_rate_point u10_from_spectra toy_gen toy_shape
+  integrate2 active_dedt balance_fn u10_from_bulk_rate_point u10_from_spectra toy_gen toy_h
   driver_cfg mkcfg mkgrid mkpoint wrap180 fmod atan2.
